@@ -1,10 +1,12 @@
 /-
   C02 — draft selection: which `$schema` values select draft-07, which are refused, and what changes under draft-07
-  (`$ref` siblings ignored, array-form `items` / `additionalItems`, `dependencies`).
+  (`$ref` siblings ignored, array-form `items` / `additionalItems`, `dependencies`; `minContains`, `maxContains`,
+  `unevaluatedItems`, `unevaluatedProperties` unknown — finding D27, repaired).
   Property theorems only (helper lemmas: JSV/Proofs/InvDraft.lean, JSV/Proofs/ResDraft.lean; section "algebraic laws":
   JSV/Proofs/SpecLaws*.lean).
 -/
 import JSV.Proofs.InvDraft
+import JSV.Proofs.InvLater
 import JSV.Proofs.ResDraft
 import JSV.Props.C01
 import JSV.Proofs.SpecLawsScope
@@ -173,6 +175,99 @@ theorem draft7_model_ignores (env : VEnv) (hd : env.draft = .d7) : ∀ fuel stac
 theorem draft2020_model_ignores (env : VEnv) (hd : env.draft = .d2020) : ∀ fuel stack i s,
     Go.validateFuel { env with st := env.st.map Inv.erase7only } fuel stack i s = Go.validateFuel env fuel stack i s :=
   Inv.validateFuel_d2020_ignores env hd
+
+/-! ## draft-07: the keywords of later drafts are unknown keywords (finding D27, repaired)
+
+`minContains`, `maxContains`, `unevaluatedItems`, `unevaluatedProperties` (all introduced by 2019-09) do not exist in
+draft-07: a draft-07 validator ignores them as it ignores any unknown keyword.  The evaluator used to apply them
+whatever the draft; `(*state).validate` now tests `st.rs.draft` before reading each of the four, and the Spec evaluates
+the schema object restricted to the vocabulary of the draft (`Spec.vocab`).  `contains` itself is draft-07: at least
+one item matches. -/
+
+/-- the draft-07 vocabulary has none of the four; the 2020-12 vocabulary is the whole schema object -/
+theorem vocab_spec (n : Node) :
+    (Spec.vocab .d7 n).minContains = none ∧ (Spec.vocab .d7 n).maxContains = none ∧
+    (Spec.vocab .d7 n).unevaluatedItems = none ∧ (Spec.vocab .d7 n).unevaluatedProperties = none ∧
+    Spec.vocab .d7 n = Inv.eraseLater n ∧ Spec.vocab .d2020 n = n :=
+  ⟨rfl, rfl, rfl, rfl, rfl, rfl⟩
+
+/-- Spec, draft-07: `contains` asks for at least one matching item and evaluates the matching ones — whatever
+    `minContains` / `maxContains` say -/
+theorem draft7_contains (sub : NodeId → Json → Spec.Out) (n : Node) (xs : List Json) (c : NodeId)
+    (hc : n.contains = some c) :
+    Spec.kwContains sub (Spec.vocab .d7 n) (.arr xs) =
+      (Spec.sequence (xs.map fun x => sub c x)).map fun rs =>
+        if 1 ≤ ((rs.zip (Spec.indices xs.length)).filterMap fun (r, i) => if r.isSome then some i else none).length
+        then some { items := (rs.zip (Spec.indices xs.length)).filterMap fun (r, i) => if r.isSome then some i else none }
+        else none := by
+  unfold Spec.kwContains
+  simp only [vocab_contains, hc, vocab_d7_minContains, vocab_d7_maxContains, Bool.and_true, decide_eq_true_eq]
+  congr 1
+  funext rs
+  congr 1
+  apply propext
+  omega
+
+/-- Spec, draft-07: `unevaluatedItems` / `unevaluatedProperties` assert nothing and evaluate nothing -/
+theorem draft7_unevaluated (sub : NodeId → Json → Spec.Out) (n : Node) (j : Json) (ev : Spec.Ev) :
+    Spec.kwUnevaluatedItems sub (Spec.vocab .d7 n) j ev = some (some {}) ∧
+    Spec.kwUnevaluatedProps sub (Spec.vocab .d7 n) j ev = some (some {}) := by
+  unfold Spec.kwUnevaluatedItems Spec.kwUnevaluatedProps
+  cases j <;> simp
+
+/-- the evaluator, draft-07: the two `unevaluated*` blocks return at once, `bArrayLimits` checks `minItems` /
+    `maxItems` only, `bContains` does not look at `minContains` -/
+theorem draft7_model_blocks (rec : Go.Rec) (stack : List NodeId) (n : Node) (xs : List GoVal)
+    (kvs : List (String × GoVal)) (anns : Anns) (cnt : Nat) :
+    bUnevaluatedItems .d7 rec stack n xs anns = .ok anns ∧
+    bUnevaluatedProps .d7 rec stack n kvs anns = .ok anns ∧
+    bArrayLimits .d7 n xs cnt = bArrayLimits .d7 { n with minContains := none, maxContains := none } xs cnt ∧
+    bContains .d7 rec stack n xs anns = bContains .d7 rec stack { n with minContains := none } xs anns := by
+  refine ⟨rfl, rfl, ?_, ?_⟩
+  · unfold bArrayLimits; simp
+  · unfold bContains; simp
+
+/-- **Draft-07 ignores the keywords of later drafts.**  With the draft-07 `$schema`, erasing `minContains`,
+    `maxContains`, `unevaluatedItems` and `unevaluatedProperties` from every schema object of the store changes no
+    outcome — of the Spec (definedness, verdict, evaluated sets; every fuel, scope, schema, instance) nor of the
+    evaluator (verdict, annotations, panic, fuel; every stack, Go value, schema). -/
+theorem draft7_ignores_later_keywords (env : VEnv) (hd : env.draft = .d7) :
+    (∀ fuel scope s j,
+      Spec.evalFuel (specEnvOf { env with st := env.st.map Inv.eraseLater }) fuel scope s j
+        = Spec.evalFuel (specEnvOf env) fuel scope s j) ∧
+    (∀ fuel stack i s,
+      Go.validateFuel { env with st := env.st.map Inv.eraseLater } fuel stack i s
+        = Go.validateFuel env fuel stack i s) :=
+  ⟨Inv.evalFuel_later7 (specEnvOf env) hd, Inv.validateFuel_later7 env hd⟩
+
+/-- the Spec half for an arbitrary Spec environment -/
+theorem draft7_ignores_later_keywords_spec (env : Spec.Env) (hd : env.draft = .d7) : ∀ fuel scope s j,
+    Spec.evalFuel { env with st := env.st.map Inv.eraseLater } fuel scope s j = Spec.evalFuel env fuel scope s j :=
+  Inv.evalFuel_later7 env hd
+
+/-- … and at the entry point `(*Resolved).Validate` (the `$schema` test reads none of the four) -/
+theorem draft7_ignores_later_keywords_entry (env : VEnv) (hd : env.draft = .d7) (supported : List String) (fuel : Nat)
+    (root : NodeId) (inst : GoVal) :
+    Go.validate { env with st := env.st.map Inv.eraseLater } supported fuel root inst
+      = Go.validate env supported fuel root inst := by
+  unfold Go.validate
+  show (match Store.get? (env.st.map Inv.eraseLater) root with
+        | none => Res.panic
+        | some rn => if (!supported.contains rn.schema) = true then Res.err
+                     else Res.bind (validateFuel { env with st := env.st.map Inv.eraseLater } fuel [] inst root)
+                       fun _ => .ok ()) = _
+  rw [Inv.get?_map]
+  cases Store.get? env.st root with
+  | none => rfl
+  | some n =>
+    show (if (!supported.contains n.schema) = true then Res.err
+          else Res.bind (validateFuel { env with st := env.st.map Inv.eraseLater } fuel [] inst root)
+            fun _ => .ok ()) = _
+    rw [Inv.validateFuel_later7 env hd]
+
+/-- under 2020-12 nothing changed: the Spec reads the whole schema object -/
+theorem draft2020_vocab (env : Spec.Env) (hd : env.draft = .d2020) (n : Node) : Spec.vocab env.draft n = n := by
+  rw [hd]; rfl
 
 /-! ## documents loaded through `$ref` -/
 
@@ -478,5 +573,60 @@ example (rs : Resolved) (h : Go.resolve (chainEnv "http://json-schema.org/draft-
         have e : n = { id := "#foo" } := Option.some.inj (hn.symm.trans rfl)
         subst e; rfl
       · cases hk)).1
+
+/-! ### finding D27: the witness documents -/
+
+/-- `{"$schema":"http://json-schema.org/draft-07/schema#","contains":{"type":"number"},"minContains":2}` -/
+def laterStore7 : Store := #[
+  { schema := "http://json-schema.org/draft-07/schema#", contains := some 1, minContains := some 2 },
+  { type := "number" } ]
+/-- the same document declaring 2020-12 -/
+def laterStore20 : Store := #[
+  { schema := "https://json-schema.org/draft/2020-12/schema", contains := some 1, minContains := some 2 },
+  { type := "number" } ]
+def laterInfos : List (NodeId × Info) :=
+  [(0, { path := "root", base := some 0 }), (1, { path := "/contains", base := some 0 })]
+def laterEnv7 : VEnv :=
+  { st := laterStore7, draft := .d7, infos := laterInfos, reMatch := fun _ _ => false, hash := fun _ => 0 }
+def laterEnv20 : VEnv := { laterEnv7 with st := laterStore20, draft := .d2020 }
+
+/-- draft-07: `[1]` is valid (`minContains` is not a keyword; one item matches `contains`) … -/
+example : Spec.valid (specEnvOf laterEnv7) 3 0 (.arr [.num 1]) = some true := by decide
+example : Go.validate laterEnv7 Generated.supportedVersions 3 0 (GoVal.ofJson (.arr [.num 1])) = .ok () := by decide
+/-- … `["s"]` is not (`contains` is draft-07), and `maxContains` imposes nothing -/
+example : Spec.valid (specEnvOf laterEnv7) 3 0 (.arr [.str "s"]) = some false := by decide
+example : Go.validate laterEnv7 Generated.supportedVersions 3 0 (GoVal.ofJson (.arr [.str "s"])) = .err := by decide
+example : Spec.valid (specEnvOf { laterEnv7 with st := #[{ contains := some 1, maxContains := some 1 }, { type := "number" }] })
+    3 0 (.arr [.num 1, .num 2]) = some true := by decide
+/-- `minContains: 0` does not make an array without a match valid under draft-07 -/
+example : (Go.validateFuel { laterEnv7 with st := #[{ contains := some 1, minContains := some 0 }, { type := "number" }] }
+    3 [] (GoVal.ofJson (.arr [])) 0).verdict = some false := by decide
+/-- 2020-12: `[1]` is invalid (two matches are required), `[1, 2]` is valid -/
+example : Spec.valid (specEnvOf laterEnv20) 3 0 (.arr [.num 1]) = some false := by decide
+example : Go.validate laterEnv20 Generated.supportedVersions 3 0 (GoVal.ofJson (.arr [.num 1])) = .err := by decide
+example : Go.validate laterEnv20 Generated.supportedVersions 3 0 (GoVal.ofJson (.arr [.num 1, .num 2])) = .ok () := by
+  decide
+/-- `{"$schema": draft-07, "unevaluatedProperties": false}` accepts `{"a": 1}`; under 2020-12 it does not -/
+def unevalStore : Store := #[{ unevaluatedProperties := some 1 }, { not := some 2 }, {}]
+def unevalInfos : List (NodeId × Info) := [(0, { base := some 0 }), (1, { base := some 0 }), (2, { base := some 0 })]
+def unevalEnv7 : VEnv :=
+  { st := unevalStore, draft := .d7, infos := unevalInfos, reMatch := fun _ _ => false, hash := fun _ => 0 }
+example : (Spec.evalFuel (specEnvOf unevalEnv7) 4 [] 0 (.obj [("a", .num 1)])).map (·.isSome) = some true := by decide
+example : (Go.validateFuel unevalEnv7 4 [] (GoVal.ofJson (.obj [("a", .num 1)])) 0).verdict = some true := by decide
+example : (Spec.evalFuel (specEnvOf { unevalEnv7 with draft := .d2020 }) 4 [] 0 (.obj [("a", .num 1)])).map (·.isSome)
+    = some false := by decide
+example : (Go.validateFuel { unevalEnv7 with draft := .d2020 } 4 [] (GoVal.ofJson (.obj [("a", .num 1)])) 0).verdict
+    = some false := by decide
+/-- `draft7_ignores_later_keywords` applied: the document with the keyword erased -/
+example : laterStore7.map Inv.eraseLater =
+    #[{ schema := "http://json-schema.org/draft-07/schema#", contains := some 1 }, { type := "number" }] := by
+  simp [laterStore7, Inv.eraseLater]
+example (fuel : Nat) (i : GoVal) :
+    Go.validateFuel { laterEnv7 with st := laterStore7.map Inv.eraseLater } fuel [] i 0
+      = Go.validateFuel laterEnv7 fuel [] i 0 :=
+  (draft7_ignores_later_keywords laterEnv7 rfl).2 fuel [] i 0
+/-- the hypothesis `env.draft = .d7` cannot be dropped: under 2020-12 the erasure flips the verdict on `[1]` -/
+example : (Go.validateFuel { laterEnv20 with st := #[{ contains := some 1 }, { type := "number" }] } 3 []
+    (GoVal.ofJson (.arr [.num 1])) 0).verdict = some true := by decide
 
 end JSV.C02
